@@ -237,6 +237,22 @@ class CallMixin:
         return env
 
     def call_function(self, func, recv, args, kwargs, fr, node=None, star=()):
+        if func.cls is not None and func.cls.name == 'ParsableBaseNoABC' and \
+                func.name in ('parse_immutable', 'parse_exact_size', 'parse_mutable'):
+            rc = self.recv_class(recv)
+            op = Op(None, 'parse', func.name, {'cls': ClassV(rc) if rc is not None else recv,
+                                               'parsable': args[0] if args else kwargs.get('parsable')},
+                    None, node, fr.func)
+            fr.emit(op)
+            obj = Sym('parsed', ClassV(rc) if rc is not None else recv, op.args['parsable'])
+            if func.name == 'parse_immutable':
+                return (obj, Sym('parsedlen', ClassV(rc) if rc is not None else recv, op.args['parsable']))
+            return obj
+        if func.name == 'compose' and not args and self.foreign_receiver(recv, fr):
+            return BytesV([('nested', recv)])
+        if func.module.external and not (func.kind == 'classmethod' and not args and not kwargs):
+            # the dependency is consulted for constants only, never interpreted as DSL code
+            return Sym('extcall', func.qualname, recv if recv is not None else None, *args)
         if fr.depth >= self.max_depth:
             return Unknown('inline depth')
         key = (func.construct, getattr(self.recv_class(recv), 'qualname', None))
@@ -262,6 +278,15 @@ class CallMixin:
         if sub.yields is not None:
             return ListV(sub.yields, sub.yields_complete)
         return sub.result()
+
+    @staticmethod
+    def foreign_receiver(recv, fr):
+        """``x.compose()`` on an object other than the one being interpreted."""
+        if isinstance(recv, SelfV):
+            return bool(recv.path)
+        if isinstance(recv, (ObjV, EnumMember)):
+            return True
+        return False
 
     @staticmethod
     def is_generator(func):
